@@ -3678,3 +3678,78 @@ func E9AdjacentAlwaysTested(c *core.Ctx, r *core.Report) {
 	r.Count("E9.adjacent-always-tested", n)
 	r.Floor("E9.adjacent-always-tested", 3)
 }
+
+// E9OperandListsSeparate: the contours split off an element of one operand stay in that operand's list.
+func E9OperandListsSeparate(c *core.Ctx, r *core.Report) {
+	r.Rule("E9.operand-lists-separate", "bentleyOttmann takes its two operands as lists of paths and first splits every multi-contour element into its contours, replacing the element by the first contour and appending the others. Which list a contour is in decides whether its segments count as subject or clipping. In every loop of the function that assigns to an element of a list parameter (`X[i] = …`), each append inside that loop whose result is assigned to a list parameter extends X itself. Appending the extra contours of a clipping element to the subject list computes (P ∪ Q₂) op Q₁: And loses P∩Q₂, Not adds Q₂, and the operation is no longer commutative")
+	p := c.MustPkg("")
+	info := p.TypesInfo
+	fd := core.MustFuncDecl(p, "bentleyOttmann")
+	r.Func("canvas.bentleyOttmann")
+	lists := map[types.Object]bool{}
+	for _, f := range fd.Type.Params.List {
+		for _, nm := range f.Names {
+			if _, ok := info.TypeOf(f.Type).Underlying().(*types.Slice); ok {
+				lists[info.Defs[nm]] = true
+			}
+		}
+	}
+	n := 0
+	ast.Inspect(fd.Body, func(m ast.Node) bool {
+		var body *ast.BlockStmt
+		switch l := m.(type) {
+		case *ast.ForStmt:
+			body = l.Body
+		case *ast.RangeStmt:
+			body = l.Body
+		default:
+			return true
+		}
+		// the list whose elements the loop rewrites
+		var target types.Object
+		ast.Inspect(body, func(k ast.Node) bool {
+			if as, ok := k.(*ast.AssignStmt); ok {
+				for _, l := range as.Lhs {
+					if ie, ok := core.Unparen(l).(*ast.IndexExpr); ok {
+						if id, ok := core.Unparen(ie.X).(*ast.Ident); ok && lists[core.ObjOf(info, id)] {
+							target = core.ObjOf(info, id)
+						}
+					}
+				}
+			}
+			return true
+		})
+		if target == nil {
+			return true
+		}
+		ast.Inspect(body, func(k ast.Node) bool {
+			as, ok := k.(*ast.AssignStmt)
+			if !ok || len(as.Lhs) != 1 || len(as.Rhs) != 1 {
+				return true
+			}
+			lid, ok := as.Lhs[0].(*ast.Ident)
+			if !ok || !lists[core.ObjOf(info, lid)] {
+				return true
+			}
+			call, ok := core.Unparen(as.Rhs[0]).(*ast.CallExpr)
+			if !ok || len(call.Args) < 1 {
+				return true
+			}
+			if fn, ok := core.Unparen(call.Fun).(*ast.Ident); !ok || fn.Name != "append" {
+				return true
+			}
+			n++
+			key := fmt.Sprintf("canvas.bentleyOttmann|append #%d in a loop over `%s`", n, target.Name())
+			a0, isId := core.Unparen(call.Args[0]).(*ast.Ident)
+			if core.ObjOf(info, lid) == target && isId && core.ObjOf(info, a0) == target {
+				r.OK("E9.operand-lists-separate", key, c.Pos(as.Pos()), c.Src(as))
+			} else {
+				r.Fail("E9.operand-lists-separate", key, c.Pos(as.Pos()), fmt.Sprintf("the loop replaces elements of `%s` by their first contour, but `%s` puts the remaining contours into another operand's list: they are then swept as part of the wrong operand, so for a compound element the operation computes a different set expression (And loses the part covered by the moved contours, Not adds them) and is not commutative", target.Name(), c.Src(as)))
+			}
+			return true
+		})
+		return true
+	})
+	r.Count("E9.operand-lists-separate", n)
+	r.Floor("E9.operand-lists-separate", 2)
+}
